@@ -1006,9 +1006,14 @@ func (l *lexer) scanRawToken() int {
 					return WORD
 				}
 				if len(l.stack) != 0 {
-					if len(l.stack) > 1 && l.stack[len(l.stack)-1] == ')' {
-						// a subshell that is still open cannot be closed by '`'
-						l.error(l.pos, "syntax error: unexpected '`', expecting ')'")
+					if len(l.stack) > 1 {
+						// '`' ends the substitution, not a command
+						// that is still open in it
+						msg := "syntax error: unexpected '`'"
+						if l.stack[len(l.stack)-1] == ')' {
+							msg += ", expecting ')'"
+						}
+						l.error(l.pos, msg)
 						return -1
 					}
 					l.bquote = true
